@@ -14,7 +14,8 @@
    C17_get_unset holds for every pair of spellings; corpus/C17/case_keyed.hist keeps the input.) *)
 From Coq Require Import List NArith Bool.
 From Falco Require Import Base.Bytes Model.HdrField Model.Hdr Model.HdrSpec Gen.HdrTables
-  Proofs.HdrScan Proofs.HdrItems Proofs.HdrStore Proofs.HdrLaws1 Proofs.HdrLaws2 Proofs.HdrLaws3 Proofs.HdrExamples.
+  Model.HdrMulti Proofs.HdrScan Proofs.HdrItems Proofs.HdrStore Proofs.HdrLaws1 Proofs.HdrLaws2 Proofs.HdrLaws3 Proofs.HdrExamples
+  Proofs.HdrMulti.
 Import ListNotations.
 
 (* ---- refinement ------------------------------------------------------------------------- *)
@@ -110,6 +111,27 @@ Theorem C17_field_set_notset : forall ks kd h n n' k k',
    get kd (after kd (state_after kd (map conc h)) (conc (HSetF n k VNotSet))) (ftarget n' k') = ORead RNotSet).
 Proof. exact field_set_notset. Qed.
 
+(* ---- several objects of one request (req, bereq, beresp, obj, resp) ------------------------ *)
+(* an operation addressed to one object (or the rebuilding of one object from another) leaves the
+   store of every OTHER object as it is: every header, every sub-field, set / not-set *)
+Theorem C17_set_other_object_frame : forall m x p, writes_to x <> p -> fst (mstep m x) p = m p.
+Proof. exact set_other_object_frame. Qed.
+
+Theorem C17_other_object_frame_histories : forall h m p,
+  Forall (fun x => writes_to x <> p) h -> fst (mrun m h) p = m p.
+Proof. exact other_object_frame_histories. Qed.
+
+(* an object derived from another (bereq from req, resp / obj from a response) carries the header
+   values and NO assigned marks; afterwards the two are independent *)
+Theorem C17_derive_reads : forall s n,
+  header_get (derive s) n = header_get s n /\ is_assigned (derive s) n = false.
+Proof. exact derive_reads. Qed.
+
+Theorem C17_derive_then_independent : forall m dst src h,
+  dst <> src -> Forall (fun x => writes_to x <> src) h ->
+  fst (mrun (fst (mstep m (MDerive dst src))) h) src = m src.
+Proof. exact derive_then_independent. Qed.
+
 (* ---- witnesses: the hypotheses are satisfiable by a non-trivial history ------------------- *)
 Theorem C17_witness_history : forallb (hop_ok ks_w KReq) h_w = true /\ forallb (hop_ok ks_w KResp) h_w = true.
 Proof. exact history_witness_ok. Qed.
@@ -153,6 +175,10 @@ Print Assumptions C17_field_get_set.
 Print Assumptions C17_field_unset.
 Print Assumptions C17_field_frame.
 Print Assumptions C17_field_set_notset.
+Print Assumptions C17_set_other_object_frame.
+Print Assumptions C17_other_object_frame_histories.
+Print Assumptions C17_derive_reads.
+Print Assumptions C17_derive_then_independent.
 Print Assumptions C17_witness_history.
 Print Assumptions C17_embedded_key_refuted.
 Print Assumptions C17_trailing_backslash_refuted.
